@@ -643,6 +643,13 @@ class Interp:
             if r is not None:
                 return r
         t = type(op)
+        if t is ast.Mult:
+            # sequence repetition: the size of the result is work / memory the interpreted program spends
+            for x, y in ((a, b), (b, a)):
+                if isinstance(y, K) and isinstance(y.v, int) and not isinstance(y.v, bool):
+                    size = len(x.items) if isinstance(x, ListV) else len(x.v) if isinstance(x, K) and isinstance(x.v, (str, bytes, list, tuple, bytearray)) else None
+                    if size is not None and size * y.v > 0:
+                        self.allocation(size * y.v, node)
         if isinstance(a, K) and isinstance(b, K):
             f = _BINOPS.get(t)
             if f:
@@ -685,6 +692,13 @@ class Interp:
         if t is ast.Mod and isinstance(a, K) and isinstance(a.v, str):
             return Term('strfmt', a, b)
         return Term(_OPNAME.get(t, t.__name__), a, b)
+
+    ALLOC_LIMIT = 20_000_000
+
+    def allocation(self, n, node=None):
+        """the interpreted program builds a sequence of n elements in one step"""
+        if n > self.ALLOC_LIMIT:
+            raise Fail(f'allocation of {n} elements at line {getattr(node, "lineno", "?")}')
 
     def concat(self, a, b):
         def pat(v):
